@@ -239,8 +239,78 @@ def extra_obligations(mods, tier, seed):
     out.append({"name": "C09/forms/reassignment-does-not-leak-the-temporary", "status": "discharged" if not tmp_leak else "sat",
                 "backend": "enum", "where": "`xs = [..]` on an existing list does not allocate a temporary that is never freed", "time": 0.0,
                 "replay": {"script": src3, "loop": loop3[:400]}, "replay_confirmed": True})
+    out += exec_obligations()
+    return out
+
+
+# list programs executed on the firmware mock under AddressSanitizer/UBSan (BOUNDED): no out-of-bounds access, use after free or
+# double free in setup() + 5 loop() passes, and the printed values are CPython's.  Leak detection is off: the leak findings of the
+# pinned tree are recorded above (forms), and the sketch's globals are never released by design.
+EXEC_SCRIPTS = {
+    "negative-index-after-untaken-append": "xs = [1, 2, 3]\nc = 0\nif c > 0:\n    xs.append(4)\nwhile True:\n    mon.write(xs[-1])\n    mon.write(xs[-3])\n    sleep(1)\n",
+    "negative-index-after-both-branches-append": "xs = [1, 2]\nc = 1\nif c > 0:\n    xs.append(3)\nelse:\n    xs.append(4)\nwhile True:\n    mon.write(xs[-1])\n    mon.write(xs[-2])\n    sleep(1)\n",
+    "negative-index-after-loop-append": "xs = [5]\nfor i in range(3):\n    xs.append(i)\nwhile True:\n    mon.write(xs[-1])\n    mon.write(xs[-4])\n    sleep(1)\n",
+    "negative-index-after-append-in-uncalled-function": "xs = [7, 8]\ndef grow():\n    xs.append(9)\nwhile True:\n    mon.write(xs[-1])\n    mon.write(xs[-2])\n    sleep(1)\n",
+    "negative-index-straight-line": "xs = [1, 2, 3]\nxs.append(4)\nxs.remove(1)\nmon.write(xs[-1])\nmon.write(xs[-3])\nmon.write(xs[0])\n",
+    "index-with-runtime-value": "xs = [10, 20, 30]\nk = 0\nwhile True:\n    mon.write(xs[k % 3])\n    mon.write(xs[-(k % 3) - 1])\n    k = k + 1\n    sleep(1)\n",
+    "append-remove-each-pass": "xs = [1, 2, 3]\nn = 10\nwhile True:\n    xs.append(n)\n    xs.remove(xs[0])\n    mon.write(xs[0])\n    mon.write(xs[2])\n    n = n + 1\n    sleep(1)\n",
+    "reassign-from-other-list-same-size-then-mutate": "a = [1, 2]\nb = [3, 4]\nb = a\nb.append(5)\nmon.write(a[0])\nmon.write(a[1])\nmon.write(b[2])\nwhile True:\n    a.append(9)\n    a.remove(9)\n    mon.write(b[0])\n    sleep(1)\n",
+    "reassign-from-other-list-then-mutate-source": "a = [1, 2, 3]\nb = [0, 0, 0]\nb = a\na.append(4)\na.remove(1)\nmon.write(b[0])\nmon.write(b[2])\nmon.write(a[0])\n",
+    "reassign-in-loop-from-other-list": "a = [1, 2]\nb = [5, 6]\nk = 0\nwhile True:\n    b = a\n    b.append(k)\n    b.remove(k)\n    mon.write(b[0] + a[1])\n    k = k + 1\n    sleep(1)\n",
+    "comprehension-then-index": "while True:\n    sq = [i * i for i in range(5)]\n    mon.write(sq[4])\n    mon.write(sq[-1])\n    sleep(1)\n",
+    "list-passed-through-helper-index": "xs = [4, 5, 6]\ndef at(k):\n    return xs[k]\nj = 0\nwhile True:\n    v = at(j % 3)\n    mon.write(v)\n    j = j + 1\n    sleep(1)\n",
+    "remove-until-short": "xs = [1, 2, 3, 4, 5, 6, 7]\nwhile True:\n    xs.remove(xs[0])\n    mon.write(xs[0])\n    mon.write(xs[-1])\n    sleep(1)\n",
+    "float-and-string-lists": "ws = [0.5, 1.5, 2.5]\nnames = ['a', 'bb', 'ccc']\nk = 0\nwhile True:\n    ws.append(ws[k % 3] * 2)\n    mon.write(ws[-1])\n    mon.write(names[k % 3])\n    mon.write(names[-1])\n    k = k + 1\n    sleep(1)\n",
+}
+
+
+def _exec_one(args):
+    name, src = args
+    import os
+    from progs.diff import host_events, transpile, observable, compare, _strip_empty_passes
+    from fwsim.run import run_sketch
+    passes = 5
+    host = host_events(src, passes)
+    if host["status"].startswith(("crash", "timeout")):
+        return name, "harness-" + host["status"].split(":")[0], host["status"], src
+    if host["status"] != "ok":
+        return name, "python-undefined", host["status"], src
+    cpp, err = transpile(src)
+    if cpp is None:
+        return name, "rejected", err, src
+    r = run_sketch(cpp, passes=passes, sanitize=True, env={"ASAN_OPTIONS": "detect_leaks=0:abort_on_error=0", "UBSAN_OPTIONS": "halt_on_error=1"})
+    if not r.get("compiled"):
+        return name, "does-not-compile", r.get("errors", "")[-300:], src
+    err = r.get("stderr", "")
+    if r.get("timeout") or r.get("rc", 0) != 0 or "AddressSanitizer" in err or "runtime error" in err:
+        first = next((l for l in err.splitlines() if "ERROR: AddressSanitizer" in l or "runtime error" in l), err[-200:])
+        return name, "memory-error", first[:300], src
+    # `b = a` aliases in Python and copies on the device (value semantics): where a script observes that, only memory safety is judged here
+    if not name.startswith("reassign-"):
+        d = compare(_strip_empty_passes(observable(host["events"])), _strip_empty_passes(observable(r["events"])))
+        if d is not None:
+            return name, "differs", d, src
+    return name, "ok", None, src
+
+
+def exec_obligations():
+    import multiprocessing as mp
+    import time
+    from progs.corpus import HEAD
+    t0 = time.time()
+    with mp.Pool(14) as pool:
+        res = pool.map(_exec_one, [(n, HEAD + s) for n, s in sorted(EXEC_SCRIPTS.items())], chunksize=1)
+    per = round((time.time() - t0) / max(1, len(res)), 3)
+    out = []
+    for name, verdict, detail, src in res:
+        ok = verdict in ("ok", "rejected", "python-undefined")
+        status = "discharged" if ok else ("unknown" if verdict.startswith("harness") else "sat")
+        out.append({"name": f"C09/exec/{name}", "status": status, "backend": "asan+fwsim", "bounded": True,
+                    "where": f"list program '{name}': no memory error under ASan/UBSan in setup() + 5 passes; printed values are CPython's [{verdict}]",
+                    "time": per, "replay": {"script": src, "verdict": verdict, "detail": detail}, "replay_confirmed": status == "sat"})
+    PROPERTY["bounded"] = [{"check": "executed list programs under ASan/UBSan", "bound": f"{len(EXEC_SCRIPTS)} scripts x setup() + 5 passes; leak detection off"}]
     return out
 
 
 def extra_evidence():
-    return {"device_snippet_sha256": _B.get("sha"), "device_functions": _B.get("functions")}
+    return {"device_snippet_sha256": _B.get("sha"), "device_functions": _B.get("functions"), "bounded": PROPERTY.get("bounded", [])}
